@@ -405,7 +405,8 @@ func runC15(c c15Case, o *vfutil.Obs) *vfutil.Failure {
 		switch call.Kind {
 		case "create":
 			allowed = c15Allowed(policy, cl, "n1", "CreateStream")
-			_, callErr = a.CreateStream(ctx, &client.CreateStreamRequest{Name: "n1", Subject: "n1", Partitions: 1})
+			// the permission is about the stream name; the subject may be that of another stream
+			_, callErr = a.CreateStream(ctx, &client.CreateStreamRequest{Name: "n1", Subject: []string{"n1", "foo", "bar"}[call.Arg%3], Partitions: 1})
 		case "delete":
 			allowed = c15Allowed(policy, cl, res, "DeleteStream")
 			_, callErr = a.DeleteStream(ctx, &client.DeleteStreamRequest{Name: res})
